@@ -28,47 +28,48 @@ def unit : Sch :=
   S (anyOf := some [str, strEnum Gen.ValidValues.spaceUnits, strEnum Gen.ValidValues.timeUnits, null])
 def ref (name : String) : Sch := S (ref := some ("#/$defs/" ++ name))
 
+def axisType : Sch := S (anyOf := some [strEnum Gen.ValidValues.axisTypes, null])
+
 def axis : Sch :=
   S (type := some "object") (required := ["name"])
     (properties := [("max", optNumber), ("min", optNumber), ("name", str), ("offset", optNumber),
-                    ("scale", optNumber), ("scaled_unit", unit),
-                    ("type", S (anyOf := some [strEnum Gen.ValidValues.axisTypes, null])), ("unit", unit)])
+                    ("scale", optNumber), ("scaled_unit", unit), ("type", axisType), ("unit", unit)])
 
 def displayHint : Sch :=
   S (type := some "object") (required := ["display_horizontal", "display_vertical"])
     (properties := [("display_depth", optString), ("display_horizontal", str), ("display_time", optString),
                     ("display_vertical", str)])
 
+def nonEmptyStr : Sch := S (type := some "string") (minLength := some 1)
+def boolean : Sch := S (type := some "boolean")
+
 def propMetadata : Sch :=
   S (type := some "object") (required := ["dtype", "identifier"])
-    (properties := [("description", optString),
-                    ("dtype", S (type := some "string") (minLength := some 1)),
-                    ("identifier", S (type := some "string") (minLength := some 1)),
-                    ("name", optString), ("unit", optString), ("varlength", S (type := some "boolean"))])
+    (properties := [("description", optString), ("dtype", nonEmptyStr), ("identifier", nonEmptyStr),
+                    ("name", optString), ("unit", optString), ("varlength", boolean)])
 
 def relatedObject : Sch :=
   S (type := some "object") (required := ["path", "type"])
     (properties := [("label_prop", optString), ("path", str), ("type", str)])
 
 def propsDict : Sch := S (type := some "object") (additional := some (ref "PropMetadata"))
+def axesField : Sch := S (anyOf := some [S (type := some "array") (items := some (ref "Axis")), null])
+def displayHintsField : Sch := S (anyOf := some [ref "DisplayHint", null])
+def extraField : Sch := S (type := some "object") (additional := some .any)
+def versionField : Sch := S (type := some "string") (pattern := some Gen.Schema.VERSION_PATTERN)
+def relatedField : Sch := S (anyOf := some [S (type := some "array") (items := some (ref "RelatedObject")), null])
+def trackField : Sch :=
+  S (anyOf := some [S (type := some "object") (additional := some str)
+                      (propertyNames := some (S (enum := some ["lineage", "tracklet"]))), null])
 
 def geffMetadata : Sch :=
   S (type := some "object")
     (required := ["directed", "edge_props_metadata", "geff_version", "node_props_metadata"])
     (properties := [
-      ("axes", S (anyOf := some [S (type := some "array") (items := some (ref "Axis")), null])),
-      ("directed", S (type := some "boolean")),
-      ("display_hints", S (anyOf := some [ref "DisplayHint", null])),
-      ("edge_props_metadata", propsDict),
-      ("ellipsoid", optString),
-      ("extra", S (type := some "object") (additional := some .any)),
-      ("geff_version", S (type := some "string") (pattern := some Gen.Schema.VERSION_PATTERN)),
-      ("node_props_metadata", propsDict),
-      ("related_objects", S (anyOf := some [S (type := some "array") (items := some (ref "RelatedObject")), null])),
-      ("sphere", optString),
-      ("track_node_props",
-        S (anyOf := some [S (type := some "object") (additional := some str)
-                            (propertyNames := some (S (enum := some ["lineage", "tracklet"]))), null]))])
+      ("axes", axesField), ("directed", boolean), ("display_hints", displayHintsField),
+      ("edge_props_metadata", propsDict), ("ellipsoid", optString), ("extra", extraField),
+      ("geff_version", versionField), ("node_props_metadata", propsDict), ("related_objects", relatedField),
+      ("sphere", optString), ("track_node_props", trackField)])
 
 def root : Sch :=
   S (type := some "object") (required := ["geff"]) (properties := [("geff", ref "GeffMetadata")])
